@@ -18,6 +18,41 @@ pub fn emit(y: &Yaml) -> String {
     s
 }
 
+/// The same document with the keys of every mapping in another order (a pure function of the
+/// document's text, identity for every second document).  The order of keys in a YAML mapping
+/// carries no meaning, so no expectation may change.
+pub fn vary_key_order(y: &Yaml) -> Yaml {
+    let seed = hash64(&emit(y));
+    if seed & 1 == 0 {
+        return y.clone();
+    }
+    fn walk(y: &Yaml, seed: u64) -> Yaml {
+        match y {
+            Yaml::Hash(h) => {
+                let mut items: Vec<(Yaml, Yaml)> = h.iter().map(|(k, v)| (k.clone(), walk(v, seed))).collect();
+                match (seed >> 1) & 3 {
+                    0 => items.reverse(),
+                    1 => {
+                        let n = items.len();
+                        if n > 1 {
+                            items.rotate_left(n / 2);
+                        }
+                    }
+                    _ => items.sort_by_key(|(k, _)| hash64(&(seed, k.as_str().map(|s| s.to_string())))),
+                }
+                let mut out = yaml_rust::yaml::Hash::new();
+                for (k, v) in items {
+                    out.insert(k, v);
+                }
+                Yaml::Hash(out)
+            }
+            Yaml::Array(a) => Yaml::Array(a.iter().map(|x| walk(x, seed)).collect()),
+            other => other.clone(),
+        }
+    }
+    walk(y, seed)
+}
+
 pub fn parse_yaml(text: &str) -> Option<Yaml> {
     YamlLoader::load_from_str(text).ok().and_then(|mut v| {
         if v.len() == 1 {
